@@ -3,27 +3,28 @@ import DarkluaModel.Shared.VisitorSound.Fund
 # Fundamental theorem: statement cases, the induction, and call levels
 -/
 namespace DarkluaModel.Sem
+variable {md : Bool}
 
 /-- the tail shared by loops and blocks-in-statements: a loop result becomes a control result -/
-theorem RRel.loopEnd {N : NumOps} {env : Env N} {r : Option (List (Val N))} {σ σ' : State N} (h : SRel σ σ') :
-    RRel (match r with | some rv => (Res.ok (Ctl.ret rv) σ : Res N (Ctl N)) | none => .ok (.next env) σ)
+theorem RRel.loopEnd {N : NumOps} {env : Env N} {r : Option (List (Val N))} {σ σ' : State N} (h : SRel md σ σ') :
+    RRel md (match r with | some rv => (Res.ok (Ctl.ret rv) σ : Res N (Ctl N)) | none => .ok (.next env) σ)
       (match r with | some rv => .ok (.ret rv) σ' | none => .ok (.next env) σ') := by
   cases r <;> exact RRel.ok h
 
-theorem SoundS.assign {ts ts' vs vs'} (iht : SoundTs ts ts') (ihv : SoundEs vs vs') :
-    SoundS (.assign ts vs) (.assign ts' vs') := by
+theorem SoundS.assign {ts ts' vs vs'} (iht : SoundTs md ts ts') (ihv : SoundEs md vs vs') :
+    SoundS md (.assign ts vs) (.assign ts' vs') := by
   intro N call ρ k env σ σ' hc hs
   simp only [execS]
   exact RRel.bind (iht N call ρ k env σ σ' hc hs) fun _ _ _ h =>
     RRel.bind (ihv N call ρ k env _ _ hc h) fun _ _ _ h =>
       RRel.bind (storeTargets_param hc _ _ _ _ h) fun _ _ _ h => RRel.ok h
 
-theorem SoundS.cassign {op t t' v v'} (iht : SoundT t t') (ihv : SoundE v v') :
-    SoundS (.cassign op t v) (.cassign op t' v') := by
+theorem SoundS.cassign {op t t' v v'} (iht : SoundT md t t') (ihv : SoundE md v v') :
+    SoundS md (.cassign op t v) (.cassign op t' v') := by
   intro N call ρ k env σ σ' hc hs
   simp only [execS]
   refine RRel.bind (iht N call ρ k env σ σ' hc hs) fun tg s s' h => ?_
-  have hold : RRel (match tg with
+  have hold : RRel md (match tg with
         | .var n => (Res.ok (lookupVar env n s) s : Res N (Val N))
         | .slot t key => indexVal call ρ k t key s)
       (match tg with
@@ -37,24 +38,24 @@ theorem SoundS.cassign {op t t' v v'} (iht : SoundT t t') (ihv : SoundE v v') :
       RRel.bind (binopVal_param hc _ _ _ _ h) fun _ _ _ h =>
         RRel.bind (storeTarget_param hc _ _ _ _ h) fun _ _ _ h => RRel.ok h
 
-theorem SoundS.callStmt {c c'} (ih : SoundE c c') : SoundS (.callStmt c) (.callStmt c') := by
+theorem SoundS.callStmt {c c'} (ih : SoundE md c c') : SoundS md (.callStmt c) (.callStmt c') := by
   intro N call ρ k env σ σ' hc hs
   simp only [execS]
   exact RRel.bind (ih N call ρ k env σ σ' hc hs) fun _ _ _ h => RRel.ok h
 
-theorem SoundS.doBlock {b b'} (ih : SoundB b b') : SoundS (.doBlock b) (.doBlock b') := by
+theorem SoundS.doBlock {b b'} (ih : SoundB md b b') : SoundS md (.doBlock b) (.doBlock b') := by
   intro N call ρ k env σ σ' hc hs
   simp only [execS]
   refine RRel.bind (ih N call ρ k env σ σ' hc hs) fun c _ _ h => ?_
   cases c <;> exact RRel.ok h
 
-theorem SoundS.function {name m f f'} (hf : R (.f f) (.f f')) :
-    SoundS (.function name m f) (.function name m f') := by
+theorem SoundS.function {name m f f'} (hf : R md (.f f) (.f f')) :
+    SoundS md (.function name m f) (.function name m f') := by
   intro N call ρ k env σ σ' hc hs
   cases hf with
   | @fnBody ps ps' v vt vt' r r' g g' a a' b b' hn hb =>
-    have key : ∀ (F F' : FnBody), R (.f F) (.f F') →
-        RRel
+    have key : ∀ (F F' : FnBody), R md (.f F) (.f F') →
+        RRel md
           (match name, m with
             | [n], none => (Res.ok (Ctl.next env) (assignVar env n (.fn (σ.allocClosure ⟨F, env.locals, []⟩).1)
                 (σ.allocClosure ⟨F, env.locals, []⟩).2) : Res N (Ctl N))
@@ -90,8 +91,8 @@ theorem SoundS.function {name m f f'} (hf : R (.f f) (.f f')) :
       simp only [execS]
       exact key _ _ (.fnBody (by simp only [List.map_cons, hn]) hb)
 
-theorem SoundS.gfor {ns ns' vs vs' b b'} (hn : ns.map TName.name = ns'.map TName.name) (ihv : SoundEs vs vs')
-    (ihb : SoundB b b') : SoundS (.gfor ns vs b) (.gfor ns' vs' b') := by
+theorem SoundS.gfor {ns ns' vs vs' b b'} (hn : ns.map TName.name = ns'.map TName.name) (ihv : SoundEs md vs vs')
+    (ihb : SoundB md b b') : SoundS md (.gfor ns vs b) (.gfor ns' vs' b') := by
   intro N call ρ k env σ σ' hc hs
   simp only [execS, hn]
   refine RRel.bind (ihv N call ρ k env σ σ' hc hs) fun vals _ _ h => ?_
@@ -104,10 +105,10 @@ theorem SoundS.gfor {ns ns' vs vs' b b'} (hn : ns.map TName.name = ns'.map TName
     exact ihb N call ρ k _ _ _ hc hb.2
   · exact h
 
-theorem nfor_tail {N : NumOps} {call : CallFn N} {ρ : ExtOracle N} {k : Nat} {env : Env N} (hc : CallOK call)
-    {n n' : TName} {body body' : Block} (hn : n.name = n'.name) (ihbody : SoundB body body')
-    (a b c : List (Val N)) {σ σ' : State N} (h : SRel σ σ') :
-    RRel
+theorem nfor_tail {N : NumOps} {call : CallFn N} {ρ : ExtOracle N} {k : Nat} {env : Env N} (hc : CallOK md call)
+    {n n' : TName} {body body' : Block} (hn : n.name = n'.name) (ihbody : SoundB md body body')
+    (a b c : List (Val N)) {σ σ' : State N} (h : SRel md σ σ') :
+    RRel md
       (match toNumber? (first a), toNumber? (first b), toNumber? (first c) with
         | some x, some y, some z =>
           (forLoop (fun i σ =>
@@ -138,32 +139,32 @@ theorem nfor_tail {N : NumOps} {call : CallFn N} {ρ : ExtOracle N} {k : Nat} {e
     · exact h
   · exact RRel.errS h
 
-theorem SoundS.nforNone {n n' a a' b b' body body'} (hn : TName.name n = TName.name n') (iha : SoundE a a')
-    (ihb : SoundE b b') (ihbody : SoundB body body') :
-    SoundS (.nfor n a b none body) (.nfor n' a' b' none body') := by
+theorem SoundS.nforNone {n n' a a' b b' body body'} (hn : TName.name n = TName.name n') (iha : SoundE md a a')
+    (ihb : SoundE md b b') (ihbody : SoundB md body body') :
+    SoundS md (.nfor n a b none body) (.nfor n' a' b' none body') := by
   intro N call ρ k env σ σ' hc hs
   simp only [execS]
   exact RRel.bind (iha N call ρ k env σ σ' hc hs) fun _ _ _ h =>
     RRel.bind (ihb N call ρ k env _ _ hc h) fun _ _ _ h =>
       RRel.bind (RRel.ok h) fun _ _ _ h => nfor_tail hc hn ihbody _ _ _ h
 
-theorem SoundS.nforSome {n n' a a' b b' st st' body body'} (hn : TName.name n = TName.name n') (iha : SoundE a a')
-    (ihb : SoundE b b') (ihst : SoundE st st') (ihbody : SoundB body body') :
-    SoundS (.nfor n a b (some st) body) (.nfor n' a' b' (some st') body') := by
+theorem SoundS.nforSome {n n' a a' b b' st st' body body'} (hn : TName.name n = TName.name n') (iha : SoundE md a a')
+    (ihb : SoundE md b b') (ihst : SoundE md st st') (ihbody : SoundB md body body') :
+    SoundS md (.nfor n a b (some st) body) (.nfor n' a' b' (some st') body') := by
   intro N call ρ k env σ σ' hc hs
   simp only [execS]
   exact RRel.bind (iha N call ρ k env σ σ' hc hs) fun _ _ _ h =>
     RRel.bind (ihb N call ρ k env _ _ hc h) fun _ _ _ h =>
       RRel.bind (ihst N call ρ k env _ _ hc h) fun _ _ _ h => nfor_tail hc hn ihbody _ _ _ h
 
-theorem SoundS.ifsNone {brs brs'} (ih : SoundBranches brs brs') : SoundS (.ifs brs none) (.ifs brs' none) := by
+theorem SoundS.ifsNone {brs brs'} (ih : SoundBranches md brs brs') : SoundS md (.ifs brs none) (.ifs brs' none) := by
   intro N call ρ k env σ σ' hc hs
   simp only [execS]
   refine RRel.bind (ih N call ρ k env σ σ' hc hs) fun r _ _ h => ?_
   cases r <;> exact RRel.ok h
 
-theorem SoundS.ifsSome {brs brs' b b'} (ih : SoundBranches brs brs') (ihb : SoundB b b') :
-    SoundS (.ifs brs (some b)) (.ifs brs' (some b')) := by
+theorem SoundS.ifsSome {brs brs' b b'} (ih : SoundBranches md brs brs') (ihb : SoundB md b b') :
+    SoundS md (.ifs brs (some b)) (.ifs brs' (some b')) := by
   intro N call ρ k env σ σ' hc hs
   simp only [execS]
   refine RRel.bind (ih N call ρ k env σ σ' hc hs) fun r _ _ h => ?_
@@ -173,7 +174,7 @@ theorem SoundS.ifsSome {brs brs' b b'} (ih : SoundBranches brs brs') (ihb : Soun
   · exact RRel.ok h
 
 theorem SoundS.localAssign {kind ns ns' vs vs'} (hn : ns.map TName.name = ns'.map TName.name)
-    (ihv : SoundEs vs vs') : SoundS (.localAssign kind ns vs) (.localAssign kind ns' vs') := by
+    (ihv : SoundEs md vs vs') : SoundS md (.localAssign kind ns vs) (.localAssign kind ns' vs') := by
   intro N call ρ k env σ σ' hc hs
   simp only [execS, hn]
   refine RRel.bind (ihv N call ρ k env σ σ' hc hs) fun vals s s' h => ?_
@@ -181,8 +182,8 @@ theorem SoundS.localAssign {kind ns ns' vs vs'} (hn : ns.map TName.name = ns'.ma
   rw [hb.1]
   exact RRel.ok hb.2
 
-theorem SoundS.localFn {kind name f f'} (hf : R (.f f) (.f f')) :
-    SoundS (.localFn kind name f) (.localFn kind name f') := by
+theorem SoundS.localFn {kind name f f'} (hf : R md (.f f) (.f f')) :
+    SoundS md (.localFn kind name f) (.localFn kind name f') := by
   intro N call ρ k env σ σ' hc hs
   simp only [execS]
   have h1 := hs.allocCell .nil
@@ -192,8 +193,8 @@ theorem SoundS.localFn {kind name f f'} (hf : R (.f f) (.f f')) :
   rw [h2.1]
   exact RRel.ok (h2.2.setCell _ _)
 
-theorem SoundS.repeat_ {b b' c c'} (ihb : SoundB b b') (ihc : SoundE c c') :
-    SoundS (.repeat_ b c) (.repeat_ b' c') := by
+theorem SoundS.repeat_ {b b' c c'} (ihb : SoundB md b b') (ihc : SoundE md c c') :
+    SoundS md (.repeat_ b c) (.repeat_ b' c') := by
   intro N call ρ k env σ σ' hc hs
   simp only [execS, repeatStep_eq_execB]
   refine RRel.bind (whileLoop_rel (fun s s' h => ?_) _ hs) fun r _ _ h => RRel.loopEnd h
@@ -206,8 +207,8 @@ theorem SoundS.repeat_ {b b' c c'} (ihb : SoundB b b') (ihc : SoundE c c') :
     split <;> exact RRel.ok h
   · exact RRel.ok h
 
-theorem SoundS.while_ {b b' c c'} (ihc : SoundE c c') (ihb : SoundB b b') :
-    SoundS (.while_ c b) (.while_ c' b') := by
+theorem SoundS.while_ {b b' c c'} (ihc : SoundE md c c') (ihb : SoundB md b b') :
+    SoundS md (.while_ c b) (.while_ c' b') := by
   intro N call ρ k env σ σ' hc hs
   simp only [execS]
   refine RRel.bind (whileLoop_rel (fun s s' h => ?_) _ hs) fun r _ _ h => RRel.loopEnd h
@@ -216,15 +217,15 @@ theorem SoundS.while_ {b b' c c'} (ihc : SoundE c c') (ihb : SoundB b b') :
   · exact RRel.bind (ihb N call ρ k env _ _ hc h) fun _ _ _ h => RRel.ok h
   · exact RRel.ok h
 
-theorem SoundS.typeDecl {ex name ty ty'} : SoundS (.typeDecl ex name ty) (.typeDecl ex name ty') := by
+theorem SoundS.typeDecl {ex name ty ty'} : SoundS md (.typeDecl ex name ty) (.typeDecl ex name ty') := by
   intro N call ρ k env σ σ' hc hs; simp only [execS]; exact RRel.ok hs
 
-theorem SoundS.typeFn {ex name f f'} : SoundS (.typeFn ex name f) (.typeFn ex name f') := by
+theorem SoundS.typeFn {ex name f f'} : SoundS md (.typeFn ex name f) (.typeFn ex name f') := by
   intro N call ρ k env σ σ' hc hs; simp only [execS]; exact RRel.ok hs
 
 /-! ### the fundamental theorem -/
 
-theorem fund {a b : Node} (h : R a b) : Sound a b := by
+theorem fund {a b : Node} (h : R md a b) : Sound md a b := by
   induction h with
   | stepE h _ ih => exact SoundE.step h ih
   | stepT h _ ih => exact SoundT.step h ih
@@ -293,13 +294,13 @@ theorem fund {a b : Node} (h : R a b) : Sound a b := by
   | blockNone _ ih => exact SoundB.none ih
   | blockSome _ _ ih1 ih2 => exact SoundB.some ih1 ih2
 
-theorem fundB {b b' : Block} (h : R (.b b) (.b b')) : SoundB b b' := fund h
-theorem fundT {e e' : Expr} (h : R (.t e) (.t e')) : SoundT e e' := fund h
+theorem fundB {b b' : Block} (h : R md (.b b) (.b b')) : SoundB md b b' := fund h
+theorem fundT {e e' : Expr} (h : R md (.t e) (.t e')) : SoundT md e e' := fund h
 
 /-! ### call levels -/
 
-theorem RRel.retWrap {N : NumOps} {r r' : Res N (Ctl N)} : RRel r r' →
-    RRel (match r with
+theorem RRel.retWrap {N : NumOps} {r r' : Res N (Ctl N)} : RRel md r r' →
+    RRel md (match r with
         | .ok (.ret vs) σ2 => (Res.ok vs σ2 : Res N (List (Val N)))
         | .ok _ σ2 => .ok [] σ2
         | .err v σ2 => .err v σ2
@@ -316,9 +317,11 @@ theorem RRel.retWrap {N : NumOps} {r r' : Res N (Ctl N)} : RRel r r' →
     cases c <;> exact RRel.ok h
   · obtain ⟨rfl, h⟩ := hr
     exact RRel.err h
+  · exact RRel.timeout_left hr _
+  · exact RRel.timeout_left hr _
   · exact RRel.timeout
 
-theorem callClosure_ok {N : NumOps} (ρ : ExtOracle N) : ∀ n, CallOK (callClosure ρ n)
+theorem callClosure_ok {N : NumOps} (ρ : ExtOracle N) : ∀ n, CallOK md (callClosure ρ n)
   | 0 => fun _ _ _ _ _ _ _ => RRel.timeout
   | n + 1 => by
     intro c c' args σ σ' hcc hs
@@ -335,25 +338,47 @@ theorem callClosure_ok {N : NumOps} (ρ : ExtOracle N) : ∀ n, CallOK (callClos
       exact RRel.retWrap (fundB hbb N _ ρ n _ _ _ (callClosure_ok ρ n) hl.2)
 
 /-- `R`-related chunks run on related states give related results, at every level -/
-theorem runChunk_rel {N : NumOps} (ρ : ExtOracle N) (n : Nat) {b b' : Block} (h : R (.b b) (.b b'))
-    {σ σ' : State N} (hs : SRel σ σ') : RRel (runChunk ρ n b σ) (runChunk ρ n b' σ') := by
+theorem runChunk_rel {N : NumOps} (ρ : ExtOracle N) (n : Nat) {b b' : Block} (h : R md (.b b) (.b b'))
+    {σ σ' : State N} (hs : SRel md σ σ') : RRel md (runChunk ρ n b σ) (runChunk ρ n b' σ') := by
   unfold runChunk
   exact RRel.retWrap (fundB h N _ ρ n _ _ _ (callClosure_ok ρ n) hs)
 
-theorem observe_rel {N : NumOps} {r r' : Res N (List (Val N))} (h : RRel r r') : observe r' = observe r := by
+theorem observe_rel {N : NumOps} {r r' : Res N (List (Val N))} (h : RRel md r r') :
+    (md = true ∧ observe r = .timeout) ∨ observe r' = observe r := by
   cases r <;> cases r' <;> simp only [RRel] at h
   · obtain ⟨rfl, hs⟩ := h
+    right
     simp only [observe, hs.trace]
     congr 1
     exact List.map_congr_left fun v _ => hs.canon v
   · obtain ⟨rfl, hs⟩ := h
+    right
     simp only [observe, hs.trace, hs.canon]
-  · rfl
+  · exact .inl ⟨h, rfl⟩
+  · exact .inl ⟨h, rfl⟩
+  · exact .inr rfl
 
-/-- **Observational equality.** `R`-related programs have the same outcome (returned canonical
-values / raised value, and trace of external calls) for every oracle, level and externs. -/
-theorem runProgram_rel {N : NumOps} (ρ : ExtOracle N) (n : Nat) (externs : List String) {b b' : Block}
-    (h : R (.b b) (.b b')) : runProgram ρ n externs b' = runProgram ρ n externs b :=
+/-- **Observational refinement.** `R md`-related programs have the same outcome (returned canonical
+values / raised value, and trace of external calls) for every oracle, level and externs —
+unless (`md = true` only) the original program exhausts its budget. -/
+theorem runProgram_rel' {N : NumOps} (ρ : ExtOracle N) (n : Nat) (externs : List String) {b b' : Block}
+    (h : R md (.b b) (.b b')) :
+    (md = true ∧ runProgram ρ n externs b = .timeout) ∨ runProgram ρ n externs b' = runProgram ρ n externs b :=
   observe_rel (runChunk_rel ρ n h (SRel.refl _))
+
+/-- exact steps: unconditional equality of outcomes -/
+theorem runProgram_rel {N : NumOps} (ρ : ExtOracle N) (n : Nat) (externs : List String) {b b' : Block}
+    (h : R false (.b b) (.b b')) : runProgram ρ n externs b' = runProgram ρ n externs b := by
+  cases runProgram_rel' ρ n externs h with
+  | inl h => exact absurd h.1 (by decide)
+  | inr h => exact h
+
+/-- timeout-relaxed steps: equality of outcomes whenever the original finishes within its budget -/
+theorem runProgram_upto {N : NumOps} (ρ : ExtOracle N) (n : Nat) (externs : List String) {b b' : Block}
+    (h : R true (.b b) (.b b')) :
+    runProgram ρ n externs b = .timeout ∨ runProgram ρ n externs b' = runProgram ρ n externs b := by
+  cases runProgram_rel' ρ n externs h with
+  | inl h => exact .inl h.2
+  | inr h => exact .inr h
 
 end DarkluaModel.Sem
